@@ -98,6 +98,17 @@ fn run_history(v: &Value) -> Value {
                 let r = if pp.is_dir() { std::fs::remove_dir_all(pp) } else { std::fs::remove_file(pp) };
                 match r { Ok(_) => json!("ok"), Err(_) => json!("io") }
             }
+            "hide" => {
+                // replace an existing file by a directory (keeping its content aside, outside the tree that is reported)
+                let p = subst(s(step, "p"), &root);
+                let bak = format!("{}.hidden-{}", root.trim_end_matches('/'), p.replace('/', "_"));
+                match std::fs::rename(&p, &bak).and_then(|_| std::fs::create_dir(&p)) { Ok(_) => json!("ok"), Err(_) => json!("io") }
+            }
+            "unhide" => {
+                let p = subst(s(step, "p"), &root);
+                let bak = format!("{}.hidden-{}", root.trim_end_matches('/'), p.replace('/', "_"));
+                match std::fs::remove_dir(&p).and_then(|_| std::fs::rename(&bak, &p)) { Ok(_) => json!("ok"), Err(_) => json!("io") }
+            }
             "eam" => {
                 let p = PathBuf::from(subst(s(step, "p"), &root));
                 let name = s(step, "name").to_owned();
